@@ -302,7 +302,7 @@ def check_lengths(ctx, rng):
 def run(ctx):
     rng = ctx.subrng("c04")
     facts = block_factories()
-    reps = ctx.budget(3, 25)
+    reps = ctx.budget(5, 25)
     nmaxpts = 6 if ctx.tier == "quick" else 40
     for name, (factory, params) in facts.items():
         r = 1 if name == "FPRGaussian" else reps
@@ -311,7 +311,7 @@ def run(ctx):
                 return
             n = 2 if name == "FPRGaussian" else rng.randint(2, nmaxpts)
             check_block(ctx, rng, name, factory, params, n, force=(rep == 0))
-    nsolv = ctx.budget(60, 600)
+    nsolv = ctx.budget(150, 600)
     for i in range(nsolv):
         if ctx.time_left() < 0:
             return
